@@ -65,16 +65,16 @@ func parseGroup(input []byte, unit uint64, digit5, digit10 byte) (decimal uint64
 	if l == 0 {
 		return 0
 	}
-	if input[0] == digit5 || input[0] == digit5-lowerShift {
+	if input[0] == digit5 || input[0] == digit5+lowerShift {
 		return (4 + l) * unit
 	}
 	if l == 1 {
 		return unit
 	}
-	if input[1] == digit5 || input[1] == digit5-lowerShift {
+	if input[1] == digit5 || input[1] == digit5+lowerShift {
 		return 4 * unit
 	}
-	if input[1] == digit10 || input[1] == digit10-lowerShift {
+	if input[1] == digit10 || input[1] == digit10+lowerShift {
 		return 9 * unit
 	}
 	return l * unit
